@@ -109,7 +109,7 @@ func (valdec mapDecoder) decodeListAsMap(dec *Decoder, p interface{}, tag byte) 
 		return
 	}
 	mp := reflect2.PtrOf(p)
-	count := dec.ReadInt()
+	count := dec.ReadCount()
 	valdec.t.UnsafeSet(mp, valdec.t.UnsafeMakeMap(count))
 	dec.AddReference(p)
 	kp := valdec.kt.UnsafeNew()
@@ -125,7 +125,7 @@ func (valdec mapDecoder) decodeListAsMap(dec *Decoder, p interface{}, tag byte) 
 
 func (valdec mapDecoder) decodeMap(dec *Decoder, p interface{}) {
 	mp := reflect2.PtrOf(p)
-	count := dec.ReadInt()
+	count := dec.ReadCount()
 	valdec.t.UnsafeSet(mp, valdec.t.UnsafeMakeMap(count))
 	dec.AddReference(p)
 	kp := valdec.kt.UnsafeNew()
